@@ -240,7 +240,7 @@ func RunCodec(e *Env) {
 	for _, m := range methods {
 		R.Seen("method_files", strings.SplitN(m.full, ".", 2)[0])
 	}
-	nrt := e.Pick(20000, 600000)
+	nrt := e.Pick(40000, 3000000)
 	if e.Of > 1 {
 		nrt /= e.Of
 	}
@@ -317,7 +317,7 @@ func RunCodec(e *Env) {
 		mdb, _ := proto.Marshal(&ordering.Metadata{MessageID: 5, Method: n})
 		hostile = append(hostile, frame(mdb, payload))
 	}
-	nh := e.Pick(50000, 3000000)
+	nh := e.Pick(100000, 12000000)
 	if e.Of > 1 {
 		nh /= e.Of
 	}
